@@ -89,6 +89,34 @@ pub fn judge(x: &[u8], rng: &mut Rng, rec: &mut Recorder, kind: &str) {
         };
         rec.event();
         if !r0.is_ok() {
+            // x itself may be "an accepted header followed by further bytes": if the bytes that
+            // would be its header (the line through the first CRLF / 16 + declared length bytes)
+            // are accepted on their own, x has to be accepted with the identical result
+            let cand: Option<&[u8]> = if entry == 2 || (entry == 3 && x.len() >= 16 && x[..12] == spec::v2::SIG) {
+                if x.len() >= 16 {
+                    let l = 16 + u16::from_be_bytes([x[14], x[15]]) as usize;
+                    if l < x.len() { Some(&x[..l]) } else { None }
+                } else {
+                    None
+                }
+            } else {
+                x.windows(2).position(|w| w == b"\r\n").map(|i| &x[..i + 2]).filter(|c| c.len() < x.len())
+            };
+            if let Some(c) = cand {
+                let fresh = c.to_vec();
+                if let Some(rh) = parse(entry, &fresh) {
+                    rec.event();
+                    if rh.is_ok() && rh.header().map(|h| h.len()) == Some(c.len()) {
+                        any_ok = true;
+                        rec.violation(
+                            &format!("trailer-changes-result:{}", ENTRY[entry]),
+                            enc_case(kind, &x[..x.len().min(70_100)]),
+                            skeleton_text(x),
+                            format!("trailer-changes-result via {}: the first {} bytes of the input are accepted on their own ({}), the input {:?} - the same header followed by {} further bytes - gives {}", ENTRY[entry], c.len(), rh.brief(), show(x, 120), x.len() - c.len(), r0.brief()),
+                        );
+                    }
+                }
+            }
             continue;
         }
         any_ok = true;
@@ -126,6 +154,15 @@ pub fn judge(x: &[u8], rng: &mut Rng, rec: &mut Recorder, kind: &str) {
             for base in [x, &h[..]] {
                 if base.len() > 2000 && ti % 5 != 0 {
                     continue; // large headers: a subset of trailers (cost)
+                }
+                if ti % 3 == 0 && entry != 2 && h.len() + 1 < 106 && base.len() + t.len() > h.len() + 1 {
+                    // the receive buffer held an unfinished CR-free line of other content, longer
+                    // than this header, when it was refilled
+                    let n = rng.range(h.len() as u64 + 1, (base.len() + t.len()).min(106) as u64) as usize;
+                    ext.clear();
+                    ext.resize(n, b'A');
+                    let _ = parse(entry, &ext);
+                    rec.event();
                 }
                 ext.clear();
                 ext.extend_from_slice(base);
